@@ -310,6 +310,17 @@ def shape_cases(quick):
             sh.xcollect([f'o{b + n // 2}'])
             sh.xcollect([])
     ex('chains', chains)
+    def wide(sh):
+        n = 300 if quick else 20000
+        a = sh.new('A', root=True); t = sh.new('T', root=True); h = sh.new('H', root=True)
+        for j in range(n):
+            x = sh.new('P', arg='1')
+            [lambda: sh.push(a, f'o{x}'), lambda: sh.tset(t, j * 53, f'o{x}'), lambda: sh.push(h, f'o{x}')][j % 3]()
+            if j % 4 == 3: sh.store(x, 0, f'o{x - 3}')
+        sh.xcollect([])
+        for j in range(n // 3 - 2): sh.pop(a, 0); sh.trem(t, (3 * j + 1) * 53)
+        sh.xcollect([]); sh.delete(h); sh.xcollect([])
+    ex('wide_containers', wide)
     def fullshape(sh_unused=None):
         sh = Shadow(True)
         a = sh.new('A', slot=0); x = sh.new('P', arg='2', slot=1); sh.push(a, f'o{x}'); sh.root(1, 'n')
@@ -326,6 +337,8 @@ def shape_cases(quick):
            'store 1 0 o0', 'push 1 o0', 'del 0', 'xcollect o0 zz', 'xcollect o1', 'frobnicate', 'new 4 P 1 s70', 'chain 10 0 R -', 'chain 10 3 Q -', 'chain 10 3 R -', 'chain 11 2 R -',
            'deepchild 0 R', 'xcollect o10 o2', 'del 2', 'xcollect']
     cs.append(Case('bad_ops', bad))
+    if not quick:
+        cs.append(Case('deep_children', ['mode exact'] + [f'deepchild {n} {k}' for n in (100, 2000, 15000) for k in 'RPAH']))
     return cs
 
 class C01(Spec):
@@ -373,7 +386,7 @@ class C01(Spec):
         for i in range(nex):
             big = (i % 9 == 8)
             if quick: nops, maxobj = (420, 400) if big else (rng.randrange(30, 130), rng.randrange(8, 60))
-            else: nops, maxobj = (rng.choice([3000, 12000]), rng.choice([1500, 20000])) if (i % 40 == 39) else ((900, 600) if big else (rng.randrange(30, 250), rng.randrange(8, 120)))
+            else: nops, maxobj = (rng.choice([2500, 5000]), rng.choice([1200, 3000])) if (i % 40 == 39) else ((900, 600) if big else (rng.randrange(30, 250), rng.randrange(8, 120)))
             sh = gen_exact(rng, nops, maxobj, ncollect=max(2, nops // rng.choice([8, 15, 30])))
             cs.append(Case(f'exact{i}', sh.lines, meta=dict(stats=sh.stats)))
         nfu = (12 if quick else 300) * boost
@@ -421,12 +434,11 @@ class C01(Spec):
             m = re.search(r'unreachable-freed=(\d+)', l)
             if m: acc['full_mode_freed'] = acc.get('full_mode_freed', 0) + int(m.group(1))
     def model_selfcheck(self, case, m_out):
+        """inside the model: the worklist marker (what the theorems are about) against the marker with the call structure of GC.c"""
         ls = m_out.split('\n')
         for i in range(len(ls) - 1):
-            if ls[i].startswith('O ') and ls[i + 1].startswith('R '):
-                got = re.search(r'(marked|live)=(\S+)', ls[i]); want = re.search(r'reach=(\S+)', ls[i + 1])
-                if got and want and got.group(2) != want.group(1):
-                    return f'marker `{ls[i]}` vs graph reachability `{ls[i + 1]}`'
+            if ls[i].startswith('O x ') and ls[i + 1].startswith('R rec=') and ls[i + 1] not in ('R rec=agree', 'R rec=skipped'):
+                return f'worklist marker `{ls[i]}` but recursive marker: `{ls[i + 1]}`'
         return None
 
 SPEC = C01()
